@@ -636,6 +636,82 @@ layout BestChecksums
 property C07: NewParagraphReader, lemma idx_least, lemma idx_is, lemma idx_none, lemma idxOf_prefix, (*ParagraphReader).Next, (*ParagraphReader).All
 property C09: lemma idxOf_prefix, lemma idxOf_found, (*Paragraph).Set, (*Paragraph).Update
 
+// ---------- C08: the encoder puts an empty line between the paragraphs it writes ----------
+// What is written to the encoder's writer is specification-only state of the writer (`out`). The paragraph text itself
+// (writeTo) and the reflective conversion are decided by the bounded stand-in; under contract is the discipline that
+// makes "n paragraphs written, n paragraphs read": once the encoder has started a paragraph the flag stays set - also
+// after an Encode that failed - and whatever a call writes while the flag is set starts with an empty line; while the
+// flag is clear the encoder has written nothing.
+
+// the reflective walker: a paragraph or an error; it writes nothing that existed before (assumed)
+trusted func convertToParagraph
+  ensures result2 == nil ==> result0 != nil
+  ensures result2 != nil ==> result0 == nil
+
+// writeTo only appends to the writer it is given
+func (*Paragraph).writeTo
+  requires p != nil && out != nil
+  ensures len(out.out) >= len(old(out.out)) && out.out[:len(old(out.out))] == old(out.out)
+  modifies out.out
+  loop 1:
+    invariant -1 <= rangeindex#1 && rangeindex#1 < len(p.Order) && ranged() == p.Order
+    invariant len(out.out) >= len(old(out.out)) && out.out[:len(old(out.out))] == old(out.out)
+    decreases len(p.Order) - rangeindex#1
+  loop 2:
+    invariant -1 <= rangeindex#2 && rangeindex#2 < len(ranged())
+    invariant len(out.out) >= len(old(out.out)) && out.out[:len(old(out.out))] == old(out.out)
+    decreases len(ranged()) - rangeindex#2
+
+func NewEncoder
+  ensures result1 == nil && result0 != nil && fresh(result0) && result0.writer == writer && !result0.alreadyWritten
+
+func (*Encoder).encodeStruct
+  requires e != nil && e.writer != nil
+  ensures old(e.alreadyWritten) ==> e.alreadyWritten
+  ensures result == nil ==> e.alreadyWritten
+  ensures len(e.writer.out) >= len(old(e.writer.out)) && e.writer.out[:len(old(e.writer.out))] == old(e.writer.out)
+  ensures old(e.alreadyWritten) && len(e.writer.out) > len(old(e.writer.out)) ==> e.writer.out[len(old(e.writer.out))] == 10
+  ensures !e.alreadyWritten ==> e.writer.out == old(e.writer.out)
+  ensures e.writer == old(e.writer)
+  modifies e.alreadyWritten, e.writer.out
+
+func (*Encoder).encodeSlice
+  requires e != nil && e.writer != nil
+  ensures old(e.alreadyWritten) ==> e.alreadyWritten
+  ensures len(e.writer.out) >= len(old(e.writer.out)) && e.writer.out[:len(old(e.writer.out))] == old(e.writer.out)
+  ensures old(e.alreadyWritten) && len(e.writer.out) > len(old(e.writer.out)) ==> e.writer.out[len(old(e.writer.out))] == 10
+  ensures !e.alreadyWritten ==> e.writer.out == old(e.writer.out)
+  ensures e.writer == old(e.writer)
+  modifies e.alreadyWritten, e.writer.out
+  loop 1:
+    invariant 0 <= i && e.writer == old(e.writer) && e.writer != nil
+    invariant old(e.alreadyWritten) ==> e.alreadyWritten
+    invariant len(e.writer.out) >= len(old(e.writer.out)) && e.writer.out[:len(old(e.writer.out))] == old(e.writer.out)
+    invariant old(e.alreadyWritten) && len(e.writer.out) > len(old(e.writer.out)) ==> e.writer.out[len(old(e.writer.out))] == 10
+    invariant !e.alreadyWritten ==> e.writer.out == old(e.writer.out)
+    decreases rlen(data) - i
+
+func (*Encoder).encode
+  requires e != nil && e.writer != nil
+  ensures old(e.alreadyWritten) ==> e.alreadyWritten
+  ensures len(e.writer.out) >= len(old(e.writer.out)) && e.writer.out[:len(old(e.writer.out))] == old(e.writer.out)
+  ensures old(e.alreadyWritten) && len(e.writer.out) > len(old(e.writer.out)) ==> e.writer.out[len(old(e.writer.out))] == 10
+  ensures !e.alreadyWritten ==> e.writer.out == old(e.writer.out)
+  ensures e.writer == old(e.writer)
+  modifies e.alreadyWritten, e.writer.out
+  decreases rdepth(data)
+
+func (*Encoder).Encode
+  requires e != nil && e.writer != nil
+  ensures old(e.alreadyWritten) ==> e.alreadyWritten
+  ensures len(e.writer.out) >= len(old(e.writer.out)) && e.writer.out[:len(old(e.writer.out))] == old(e.writer.out)
+  ensures old(e.alreadyWritten) && len(e.writer.out) > len(old(e.writer.out)) ==> e.writer.out[len(old(e.writer.out))] == 10
+  ensures !e.alreadyWritten ==> e.writer.out == old(e.writer.out)
+  ensures e.writer == old(e.writer)
+  modifies e.alreadyWritten, e.writer.out
+
+property C08: (*Paragraph).writeTo, NewEncoder, (*Encoder).encodeStruct, (*Encoder).encodeSlice, (*Encoder).encode, (*Encoder).Encode
+
 // the reflective decoder itself is outside the verifier (C09 and the model conformance of C10 are decided for it by the
 // bounded stand-ins). Callers are verified against: it writes the object `data` points to (everything it hangs under
 // that object is newly allocated; a caller that passes a struct whose slices or maps are shared with something else is
